@@ -406,8 +406,8 @@ def model_store_req(g, n0, included):
                            'p': [rstr(x) for x in g['p']], 'n0': n0, 'ks': list(included)})
 
 
-def model_read_req(positions, iop, ps, sbs, rows, cols, req=None):
-    args = {'pos': [[rstr(x) for x in p] for p in positions], 'iop': [rstr(x) for x in iop], 'ps': [rstr(x) for x in ps],
+def model_read_req(positions, iop, ps, sbs, rows, cols, req=None, allow_missing=True):
+    args = {'allow_missing': allow_missing, 'pos': [[rstr(x) for x in p] for p in positions], 'iop': [rstr(x) for x in iop], 'ps': [rstr(x) for x in ps],
             'hint': None if sbs is None else rstr(sbs), 'rows': rows, 'cols': cols}
     req = req or {'as_indices': False}
     for nm in ('slice_start', 'slice_end', 'row_start', 'row_end', 'column_start', 'column_end'):
@@ -422,6 +422,43 @@ def impl_volume_obs(st, v):
         return ('err', 'refused')
     return ('ok', {'affine': [[rstr(fr(v.affine[i, j])) for j in range(4)] for i in range(3)],
                    'shape': [int(x) for x in v.spatial_shape]})
+
+
+def assemble_check(seg, frames, impl_array, seg_type):
+    """L0 check of the model's frame placement: rebuild the combined label array from the stored frames (as decoded by
+    the library) put where the MODEL says, and compare with what get_volume returned."""
+    def chk(ans):
+        if 'ok' not in ans:
+            return None
+        m = ans['ok']
+        n, rn, cn = m['shape']
+        r0, c0 = m['first']
+        st, px = _fetch(lambda: np.asarray(seg.pixel_array))
+        if st != 'ok':
+            return None
+        px = px.reshape((-1, int(seg.Rows), int(seg.Columns)))
+        out = np.zeros((n, rn, cn), np.int64)
+        for fi, slot in m['frames']:
+            pl = px[fi][r0:r0 + rn, c0:c0 + cn].astype(np.int64)
+            if seg_type == 'LABELMAP':
+                out[slot] = pl
+            else:
+                out[slot][pl > 0] = frames[fi][1]
+        got = np.asarray(impl_array)
+        if seg_type == 'FRACTIONAL':
+            got = np.rint(got.astype(np.float64))
+        got = got.astype(np.int64)
+        if got.shape != out.shape or not np.array_equal(got, out):
+            return {'model_placement': m['frames'], 'model_shape': m['shape'], 'impl_shape': list(got.shape)}
+        return None
+    return chk
+
+
+def add_pending(ctx, reqs, pending, req, case, impl, extra=None):
+    if extra is not None:
+        ctx.__dict__.setdefault('_c03_extra', {})[(id(pending), len(pending))] = extra
+    reqs.append(req)
+    pending.append((case, impl))
 
 
 def run_vol(ctx, reqs, pending):
@@ -469,7 +506,7 @@ def check_vol_case(ctx, descr, g, arr, mk, reqs, pending):
                      site='stored-measures')
         reqs.append(model_store_req(g, shape[0], included))
         pending.append((dict(descr, what='stored positions/orientation/measures', layer='L1'),
-                        ('ok', {'pos': sorted([[rstr(x) for x in p] for p in stored_pos]), 'iop': [rstr(x) for x in iop],
+                        ('ok', {'pos': [[rstr(x) for x in p] for p in sorted(stored_pos)], 'iop': [rstr(x) for x in iop],
                                 'ps': [rstr(x) for x in psx], 'sbs': rstr(sbs) if sbs is not None else None})))
     # ---- L0: geometry + volumes
     stg, geom = _fetch(seg.get_volume_geometry)
@@ -517,8 +554,9 @@ def check_vol_case(ctx, descr, g, arr, mk, reqs, pending):
             full_kw = kw
         # model: read side on the stored positions (L0)
         if exact and label == ('combined' if not overlap else 'channels'):
-            reqs.append(model_read_req([p for p, _ in frames], iop, psx, sbs, shape[1], shape[2]))
-            pending.append((dict(descr, read=label, what='get_volume affine/shape', layer='L0'), impl_volume_obs(stv, v)))
+            add_pending(ctx, reqs, pending, model_read_req([p for p, _ in frames], iop, psx, sbs, shape[1], shape[2]),
+                        dict(descr, read=label, what='get_volume affine/shape/placement', layer='L0'), impl_volume_obs(stv, v),
+                        assemble_check(seg, frames, v.array, seg_type) if label == 'combined' else None)
     # ---- sub-volumes of this object
     if full is not None:
         for j in range(3):
@@ -530,9 +568,10 @@ def check_vol_case(ctx, descr, g, arr, mk, reqs, pending):
                      as_indices=req['as_indices'], request_axes=''.join(ax[0] for ax in ('slice', 'row', 'column')
                                                                         if ax + '_start' in req or ax + '_end' in req))
             if exact:
-                reqs.append(model_read_req([p for p, _ in frames], iop, psx, sbs, shape[1], shape[2], req))
-                pending.append((dict(descr, request=req, what='get_volume(sub) affine/shape', layer='L0'),
-                                impl_volume_obs(stv, sub)))
+                add_pending(ctx, reqs, pending, model_read_req([p for p, _ in frames], iop, psx, sbs, shape[1], shape[2], req),
+                            dict(descr, request=req, what='get_volume(sub) affine/shape/placement', layer='L0'),
+                            impl_volume_obs(stv, sub),
+                            assemble_check(seg, frames, sub.array, seg_type) if (stv == 'ok' and 'combine_segments' in full_kw) else None)
 
 
 # ---------------------------------------------------------------------------------------------- stream: src (aligned to sources)
@@ -645,8 +684,9 @@ def check_src_case(ctx, descr, geo, arr, mk, src, reqs, pending):
         if full is None:
             full, full_kw = v, kw
             if exact:
-                reqs.append(model_read_req([p for p, _ in frames], iop, psx, sbs, descr['rows'], descr['cols']))
-                pending.append((dict(descr, read=label, what='get_volume affine/shape', layer='L0'), impl_volume_obs(stv, v)))
+                add_pending(ctx, reqs, pending, model_read_req([p for p, _ in frames], iop, psx, sbs, descr['rows'], descr['cols']),
+                            dict(descr, read=label, what='get_volume affine/shape/placement', layer='L0'), impl_volume_obs(stv, v),
+                            assemble_check(seg, frames, v.array, seg_type) if label == 'combined' else None)
     if full is not None:
         for j in range(2):
             req = rand_request(r, full.spatial_shape)
@@ -655,9 +695,10 @@ def check_src_case(ctx, descr, geo, arr, mk, src, reqs, pending):
             ctx.case(nontrivial_key=('srcsub', tuple(full.spatial_shape), tuple(sorted(req.items()))) if (valid and stv == 'ok') else None,
                      stream='src/sub', request_valid=valid, outcome='ok' if stv == 'ok' else 'refused', as_indices=req['as_indices'])
             if exact:
-                reqs.append(model_read_req([p for p, _ in frames], iop, psx, sbs, descr['rows'], descr['cols'], req))
-                pending.append((dict(descr, request=req, what='get_volume(sub) affine/shape', layer='L0'),
-                                impl_volume_obs(stv, sub)))
+                add_pending(ctx, reqs, pending, model_read_req([p for p, _ in frames], iop, psx, sbs, descr['rows'], descr['cols'], req),
+                            dict(descr, request=req, what='get_volume(sub) affine/shape/placement', layer='L0'),
+                            impl_volume_obs(stv, sub),
+                            assemble_check(seg, frames, sub.array, seg_type) if (stv == 'ok' and 'combine_segments' in full_kw) else None)
 
 
 # ---------------------------------------------------------------------------------------------- stream: img (Image.get_volume)
@@ -745,7 +786,8 @@ def check_img_case(ctx, descr, geo, shape, mk, reqs, pending):
             reqs.append(model_tiled_req(planes[0][0], rowcos + colcos, ps, None, shape[1], shape[2], None))
         else:
             reqs.append(model_read_req([p for p, _ in planes], rowcos + colcos, ps,
-                                       abs(F(descr['slice_spacing'])) if descr['kind'] == 'multiframe' else None, shape[1], shape[2]))
+                                       abs(F(descr['slice_spacing'])) if descr['kind'] == 'multiframe' else None, shape[1], shape[2],
+                                       allow_missing=False))
         pending.append((dict(descr, what='Image.get_volume affine/shape', layer='L0'), impl_volume_obs(stv, v)))
     for j in range(3):
         req = rand_request(r, v.spatial_shape)
@@ -754,13 +796,13 @@ def check_img_case(ctx, descr, geo, shape, mk, reqs, pending):
         ctx.case(nontrivial_key=('imgsub', descr['kind'], tuple(v.spatial_shape), tuple(sorted(req.items()))) if (valid and sts == 'ok') else None,
                  stream='img/sub', request_valid=valid, outcome='ok' if sts == 'ok' else 'refused', as_indices=req['as_indices'],
                  source=descr['kind'])
-        if exact and not (tiled and sts == 'ok' and sub.array.size == 0):
+        if exact:
             if tiled:
                 reqs.append(model_tiled_req(planes[0][0], rowcos + colcos, ps, None, shape[1], shape[2], req))
             else:
                 reqs.append(model_read_req([p for p, _ in planes], rowcos + colcos, ps,
                                            abs(F(descr['slice_spacing'])) if descr['kind'] == 'multiframe' else None,
-                                           shape[1], shape[2], req))
+                                           shape[1], shape[2], req, allow_missing=False))
             pending.append((dict(descr, request=req, what='Image.get_volume(sub) affine/shape', layer='L0'), impl_volume_obs(sts, sub)))
 
 
@@ -872,7 +914,7 @@ def check_tiled_case(ctx, descr, geo, mask, mk, reqs, pending):
         valid = all(e is not None for e in exp)
         ctx.case(nontrivial_key=('tiledsub', tuple(v.spatial_shape), tuple(sorted(req.items()))) if (valid and sts == 'ok') else None,
                  stream='tiled/sub', request_valid=valid, outcome='ok' if sts == 'ok' else 'refused', as_indices=req['as_indices'])
-        if exact and not (sts == 'ok' and sub.array.size == 0):
+        if exact:
             reqs.append(model_tiled_req(origin, ios, psx, sbs, descr['total'][0], descr['total'][1], req))
             pending.append((dict(descr, request=req, what='tiled get_volume(sub) affine/shape', layer='L0'), impl_volume_obs(sts, sub)))
 
@@ -1045,18 +1087,28 @@ STREAMS = {
 
 
 def _compare(ctx, pending, answers):
-    for (case, impl), ans in zip(pending, answers):
+    extra = ctx.__dict__.get('_c03_extra', {})
+    for i, ((case, impl), ans) in enumerate(zip(pending, answers)):
+        chk = extra.get((id(pending), i))
+        if chk is not None and 'proto_err' not in ans:
+            d = chk(ans)
+            ctx.hist('model_checks', 'frame placement -> array')
+            if d is not None:
+                ctx.disagree('L0', case, d, 'array assembled from the stored frames at the model\'s slots', 'value: frame placement')
         layer = case.get('layer', 'L0')
         if 'proto_err' in ans:
             ctx.disagree(layer, case, impl, ans, 'model protocol error')
             continue
         model = ('ok', ans['ok']) if 'ok' in ans else ('err', 'refused')
+        ctx.hist('model_checks', str(case.get('what', case.get('helper', '?'))) + ('' if 'ok' in ans else ' (refused)'))
         if impl[0] != model[0]:
             ctx.disagree(layer, case, impl, model, 'ok-vs-error: ' + str(case.get('what', case.get('helper', ''))))
         elif impl[0] == 'ok':
             a, b = impl[1], model[1]
             if case.get('tol'):
                 same = all(close(F(x), F(y), F(1, 10 ** 9)) for x, y in zip(a, b)) and len(a) == len(b)
+            elif isinstance(a, dict) and isinstance(b, dict):
+                same = all(b.get(k) == v for k, v in a.items())
             else:
                 same = a == b
             if not same:
